@@ -8,7 +8,8 @@ variable {P : Type}
 /-- invariant of the storing flavour, for every object except number `x` (`none`: for all) -/
 structure InvX (st : St P) (x : Option Nat) : Prop where
   own : ∀ i o, some i ≠ x → st.objs i = some o → o.stored = true →
-    o.ptr = o.cell ∧ st.heap o.cell = some o.prog ∧ o.cell < st.next ∧ st.ext o.cell = false
+    o.ptr = o.cell ∧ st.heap o.cell = some o.prog ∧ o.cell < st.next ∧ st.ext o.cell = false ∧
+    (o.valid = true → o.built = some o.prog)
   inj : ∀ i j oi oj, some i ≠ x → some j ≠ x → st.objs i = some oi → st.objs j = some oj →
     oi.stored = true → oj.stored = true → oi.cell = oj.cell → i = j
   extlt : ∀ a, st.ext a = true → a < st.next
@@ -25,103 +26,94 @@ theorem inv_init : InvS (St.init : St P) :=
    by intro a h; simp [St.init] at h, by intro i o _ h; simp [St.init] at h⟩
 
 theorem okCtor_assign (m : Member) (h : okCtorMember m = true) : okAssignMember m = true := by
-  simp [okCtorMember, okAssignMember] at *
-  exact ⟨h.1, Or.inl h.2⟩
+  simpa [okCtorMember, okAssignMember] using h
+
+theorem upd2_cases {α : Type} (f : Nat → Option α) (i j : Nat) (a b : α) (n : Nat) (o : α)
+    (h : upd (upd f j (some b)) i (some a) n = some o) :
+    (n = i ∧ o = a) ∨ (n ≠ i ∧ n = j ∧ o = b) ∨ (n ≠ i ∧ n ≠ j ∧ f n = some o) := by
+  by_cases hni : n = i
+  · subst hni; simp only [upd_same, Option.some.injEq] at h; exact Or.inl ⟨rfl, h.symm⟩
+  · rw [upd_other _ _ _ _ hni] at h
+    by_cases hnj : n = j
+    · subst hnj; simp only [upd_same, Option.some.injEq] at h; exact Or.inr (Or.inl ⟨hni, rfl, h.symm⟩)
+    · rw [upd_other _ _ _ _ hnj] at h; exact Or.inr (Or.inr ⟨hni, hnj, h⟩)
 
 /-- the core: running a well-formed member with target `t` (to be stored as object `i`) and source
     `s` (object `j`) re-establishes the invariant for everybody, `i` included -/
 theorem runMember_inv (junk : P → P) (m : Member) (st : St P) (i j : Nat)
-    (t s : Obj P) (hm : s.stored = true → okAssignMember m = true) (hij : i ≠ j) (hinv : InvX st (some i)) (hs : st.objs j = some s) (hi : i < st.nobj)
+    (t s : Obj P) (hm : s.stored = true → okAssignMember m = true) (hij : i ≠ j)
+    (hinv : InvX st (some i)) (hs : st.objs j = some s) (hi : i < st.nobj)
     (hts : t.stored = s.stored)
     (htc : t.stored = true → t.cell < st.next ∧ st.ext t.cell = false ∧
-      ∀ k o, k ≠ i → st.objs k = some o → o.stored = true → o.cell ≠ t.cell)
-    (hkeep : m.ptr = .keep → t.stored = true → t.ptr = t.cell) :
+      ∀ k o, k ≠ i → st.objs k = some o → o.stored = true → o.cell ≠ t.cell) :
     InvS (runMember junk m st i j t s) := by
   have hji : some j ≠ some i := by intro h; injection h with h; exact hij h.symm
+  have ne_i : ∀ k, k ≠ i → some k ≠ some i := by intro k hk h; injection h with h; exact hk h
   by_cases hst : s.stored = true
   · -- storing flavour
     have htst : t.stored = true := by rw [hts]; exact hst
     obtain ⟨htlt, htext, htfresh⟩ := htc htst
-    obtain ⟨hsptr, hsheap, hslt, hsext⟩ := hinv.own j s hji hs hst
+    obtain ⟨hsptr, hsheap, hslt, hsext, hsbuilt⟩ := hinv.own j s hji hs hst
     have hcne : t.cell ≠ s.cell := fun h => htfresh j s hij.symm hs hst h.symm
     have hm := hm hst
     simp only [okAssignMember, Bool.and_eq_true, Bool.or_eq_true, beq_iff_eq] at hm
     obtain ⟨hind, hptr⟩ := hm
-    -- the pointer of the target ends on its own cell, the source's is untouched
-    have hq : (applyPtr m.ptr t s) = (t.cell, s.ptr) := by
-      rcases hptr with h | h
-      · simp [applyPtr, h]
-      · simp [applyPtr, h, hkeep h htst]
-    -- the heap: target cell gets the source's individual; the source cell keeps / gets junk
     have hcond : (t.stored && s.stored && t.cell != s.cell) = true := by simp [htst, hst, hcne]
+    -- the heap after the individuals have been copied / moved
+    have hT : (applyInd junk m.ind st.heap t s).1 t.cell = some s.prog := by
+      rcases hind with h | h
+      · simp [applyInd, hcond, h, hsheap]
+      · simp [applyInd, hcond, h, upd_other _ _ _ _ hcne, hsheap]
+    have hS : (applyInd junk m.ind st.heap t s).1 s.cell = some (applyInd junk m.ind st.heap t s).2 := by
+      rcases hind with h | h
+      · simp [applyInd, hcond, h, upd_other _ _ _ _ (Ne.symm hcne), hsheap]
+      · simp [applyInd, hcond, h]
+    have hO : ∀ c, c ≠ t.cell → c ≠ s.cell → (applyInd junk m.ind st.heap t s).1 c = st.heap c := by
+      intro c h1 h2
+      rcases hind with h | h
+      · simp [applyInd, hcond, h, upd_other _ _ _ _ h1]
+      · simp [applyInd, hcond, h, upd_other _ _ _ _ h1, upd_other _ _ _ _ h2]
+    have hSv : (s.valid && !(t.stored && s.stored && m.ind.movesFrom)) = true →
+        s.built = some (applyInd junk m.ind st.heap t s).2 := by
+      intro hv
+      simp only [Bool.and_eq_true, htst, hst, Bool.true_and, Bool.not_eq_true'] at hv
+      rcases hind with h | h
+      · have : (applyInd junk m.ind st.heap t s).2 = s.prog := by simp [applyInd, hcond, h]
+        rw [this]; exact hsbuilt hv.1
+      · simp [h, IndAct.movesFrom] at hv
+    have hq : applyPtr m.ptr (applyInd junk m.ind st.heap t s).1 t s =
+        ((t.cell, (applyInd junk m.ind st.heap t s).1 t.cell), (s.ptr, s.built)) := by
+      simp [applyPtr, hptr]
     refine ⟨?_, ?_, ?_, ?_⟩
     · intro k o _ hk hos
       simp only [runMember, hq] at hk ⊢
-      by_cases hki : k = i
-      · subst hki
-        simp only [upd_same, Option.some.injEq] at hk
-        subst hk
-        refine ⟨rfl, ?_, htlt, htext⟩
-        rcases hind with h | h
-        · simp [applyInd, hcond, h, hsheap]
-        · simp [applyInd, hcond, h, upd_other _ _ _ _ hcne, hsheap]
-      · rw [upd_other _ _ _ _ hki] at hk
-        by_cases hkj : k = j
-        · subst hkj
-          simp only [upd_same, Option.some.injEq] at hk
-          subst hk
-          refine ⟨hsptr, ?_, hslt, hsext⟩
-          rcases hind with h | h
-          · simp [applyInd, hcond, h, upd_other _ _ _ _ (Ne.symm hcne), hsheap]
-          · simp [applyInd, hcond, h]
-        · rw [upd_other _ _ _ _ hkj] at hk
-          have hki' : some k ≠ some i := by intro h; injection h with h; exact hki h
-          obtain ⟨h1, h2, h3, h4⟩ := hinv.own k o hki' hk hos
-          refine ⟨h1, ?_, h3, h4⟩
-          have hne1 : o.cell ≠ t.cell := htfresh k o hki hk hos
-          have hne2 : o.cell ≠ s.cell := fun h => hkj (hinv.inj k j o s hki' hji hk hs hos hst h)
-          rcases hind with h | h
-          · simp [applyInd, hcond, h, upd_other _ _ _ _ hne1, h2]
-          · simp [applyInd, hcond, h, upd_other _ _ _ _ hne1, upd_other _ _ _ _ hne2, h2]
+      rcases upd2_cases _ _ _ _ _ _ _ hk with ⟨rfl, rfl⟩ | ⟨_, rfl, rfl⟩ | ⟨hki, hkj, hk'⟩
+      · exact ⟨rfl, hT, htlt, htext, fun _ => hT⟩
+      · exact ⟨hsptr, hS, hslt, hsext, hSv⟩
+      · obtain ⟨h1, h2, h3, h4, h5⟩ := hinv.own k o (ne_i k hki) hk' hos
+        have hne1 : o.cell ≠ t.cell := htfresh k o hki hk' hos
+        have hne2 : o.cell ≠ s.cell := fun h => hkj (hinv.inj k j o s (ne_i k hki) hji hk' hs hos hst h)
+        exact ⟨h1, by rw [hO _ hne1 hne2]; exact h2, h3, h4, h5⟩
     · intro k l ok ol _ _ hk hl hoks hols hcell
       simp only [runMember, hq] at hk hl
-      -- cells of the three kinds of objects
-      have cellOf : ∀ n o, upd (upd st.objs j (some { s with ptr := s.ptr, prog := (applyInd junk m.ind st.heap t s).2 })) i
-          (some { t with ptr := t.cell, prog := s.prog }) n = some o → o.stored = true →
-          (n = i ∧ o.cell = t.cell) ∨ (n = j ∧ o.cell = s.cell) ∨
-          (n ≠ i ∧ n ≠ j ∧ st.objs n = some o) := by
-        intro n o hn _
-        by_cases hni : n = i
-        · subst hni; simp only [upd_same, Option.some.injEq] at hn; subst hn; exact Or.inl ⟨rfl, rfl⟩
-        · rw [upd_other _ _ _ _ hni] at hn
-          by_cases hnj : n = j
-          · subst hnj; simp only [upd_same, Option.some.injEq] at hn; subst hn; exact Or.inr (Or.inl ⟨rfl, rfl⟩)
-          · rw [upd_other _ _ _ _ hnj] at hn; exact Or.inr (Or.inr ⟨hni, hnj, hn⟩)
-      rcases cellOf k ok hk hoks with ⟨rfl, hc1⟩ | ⟨rfl, hc1⟩ | ⟨hki, hkj, hk'⟩ <;>
-      rcases cellOf l ol hl hols with ⟨rfl, hc2⟩ | ⟨rfl, hc2⟩ | ⟨hli, hlj, hl'⟩
+      rcases upd2_cases _ _ _ _ _ _ _ hk with ⟨rfl, rfl⟩ | ⟨hki, rfl, rfl⟩ | ⟨hki, hkj, hk'⟩ <;>
+      rcases upd2_cases _ _ _ _ _ _ _ hl with ⟨rfl, rfl⟩ | ⟨hli, rfl, rfl⟩ | ⟨hli, hlj, hl'⟩
       · rfl
-      · exact absurd (hc1 ▸ hc2 ▸ hcell) hcne
-      · exact absurd (by rw [← hc1, hcell]) (htfresh l ol hli hl' hols)
-      · exact absurd (hc1 ▸ hc2 ▸ hcell).symm hcne
+      · exact absurd hcell hcne
+      · exact absurd hcell.symm (htfresh l ol hli hl' hols)
+      · exact absurd hcell.symm hcne
       · rfl
-      · have : some l ≠ some i := by intro h; injection h with h; exact hli h
-        exact (hinv.inj l k ol s this hji hl' hs hols hst (by rw [← hcell, hc1])).symm
-      · exact absurd (by rw [← hc2, ← hcell]) (htfresh k ok hki hk' hoks)
-      · have : some k ≠ some i := by intro h; injection h with h; exact hki h
-        exact hinv.inj k l ok s this hji hk' hs hoks hst (by rw [hcell, hc2])
-      · have h1 : some k ≠ some i := by intro h; injection h with h; exact hki h
-        have h2 : some l ≠ some i := by intro h; injection h with h; exact hli h
-        exact hinv.inj k l ok ol h1 h2 hk' hl' hoks hols hcell
+      · exact (hinv.inj l k ol s (ne_i l hli) hji hl' hs hols hst hcell.symm).symm
+      · exact absurd hcell (htfresh k ok hki hk' hoks)
+      · exact hinv.inj k l ok s (ne_i k hki) hji hk' hs hoks hst hcell
+      · exact hinv.inj k l ok ol (ne_i k hki) (ne_i l hli) hk' hl' hoks hols hcell
     · intro a ha; simp only [runMember] at ha ⊢; exact hinv.extlt a ha
     · intro k o _ hk
       simp only [runMember] at hk ⊢
-      by_cases hki : k = i
-      · subst hki; exact hi
-      · rw [upd_other _ _ _ _ hki] at hk
-        by_cases hkj : k = j
-        · subst hkj; exact hinv.objlt k s hji hs
-        · rw [upd_other _ _ _ _ hkj] at hk
-          exact hinv.objlt k o (by intro h; injection h with h; exact hki h) hk
+      rcases upd2_cases _ _ _ _ _ _ _ hk with ⟨rfl, _⟩ | ⟨_, rfl, _⟩ | ⟨hki, hkj, hk'⟩
+      · exact hi
+      · exact hinv.objlt k s hji hs
+      · exact hinv.objlt k o (ne_i k hki) hk'
   · -- reference-only flavour: the heap is not touched, the two objects are outside the invariant
     have hsf : s.stored = false := by simpa using hst
     have htf : t.stored = false := by rw [hts]; exact hsf
@@ -129,39 +121,26 @@ theorem runMember_inv (junk : P → P) (m : Member) (st : St P) (i j : Nat)
     refine ⟨?_, ?_, ?_, ?_⟩
     · intro k o _ hk hos
       simp only [runMember, hheap] at hk ⊢
-      by_cases hki : k = i
-      · subst hki; simp only [upd_same, Option.some.injEq] at hk; subst hk; simp [htf] at hos
-      · rw [upd_other _ _ _ _ hki] at hk
-        by_cases hkj : k = j
-        · subst hkj; simp only [upd_same, Option.some.injEq] at hk; subst hk; simp [hsf] at hos
-        · rw [upd_other _ _ _ _ hkj] at hk
-          exact hinv.own k o (by intro h; injection h with h; exact hki h) hk hos
+      rcases upd2_cases _ _ _ _ _ _ _ hk with ⟨rfl, rfl⟩ | ⟨_, rfl, rfl⟩ | ⟨hki, hkj, hk'⟩
+      · simp [htf] at hos
+      · simp [hsf] at hos
+      · exact hinv.own k o (ne_i k hki) hk' hos
     · intro k l ok ol _ _ hk hl hoks hols hcell
       simp only [runMember] at hk hl
-      have old : ∀ n o, upd (upd st.objs j (some { s with ptr := (applyPtr m.ptr t s).2, prog := (applyInd junk m.ind st.heap t s).2 })) i
-          (some { t with ptr := (applyPtr m.ptr t s).1, prog := s.prog }) n = some o → o.stored = true →
-          n ≠ i ∧ st.objs n = some o := by
-        intro n o hn hos
-        by_cases hni : n = i
-        · subst hni; simp only [upd_same, Option.some.injEq] at hn; subst hn; simp [htf] at hos
-        · rw [upd_other _ _ _ _ hni] at hn
-          by_cases hnj : n = j
-          · subst hnj; simp only [upd_same, Option.some.injEq] at hn; subst hn; simp [hsf] at hos
-          · rw [upd_other _ _ _ _ hnj] at hn; exact ⟨hni, hn⟩
-      obtain ⟨h1, h1'⟩ := old k ok hk hoks
-      obtain ⟨h2, h2'⟩ := old l ol hl hols
-      exact hinv.inj k l ok ol (by intro h; injection h with h; exact h1 h) (by intro h; injection h with h; exact h2 h)
-        h1' h2' hoks hols hcell
+      rcases upd2_cases _ _ _ _ _ _ _ hk with ⟨rfl, rfl⟩ | ⟨hki, rfl, rfl⟩ | ⟨hki, hkj, hk'⟩
+      · simp [htf] at hoks
+      · simp [hsf] at hoks
+      · rcases upd2_cases _ _ _ _ _ _ _ hl with ⟨rfl, rfl⟩ | ⟨hli, rfl, rfl⟩ | ⟨hli, hlj, hl'⟩
+        · simp [htf] at hols
+        · simp [hsf] at hols
+        · exact hinv.inj k l ok ol (ne_i k hki) (ne_i l hli) hk' hl' hoks hols hcell
     · intro a ha; simp only [runMember] at ha ⊢; exact hinv.extlt a ha
     · intro k o _ hk
       simp only [runMember] at hk ⊢
-      by_cases hki : k = i
-      · subst hki; exact hi
-      · rw [upd_other _ _ _ _ hki] at hk
-        by_cases hkj : k = j
-        · subst hkj; exact hinv.objlt k s hji hs
-        · rw [upd_other _ _ _ _ hkj] at hk
-          exact hinv.objlt k o (by intro h; injection h with h; exact hki h) hk
+      rcases upd2_cases _ _ _ _ _ _ _ hk with ⟨rfl, _⟩ | ⟨_, rfl, _⟩ | ⟨hki, hkj, hk'⟩
+      · exact hi
+      · exact hinv.objlt k s hji hs
+      · exact hinv.objlt k o (ne_i k hki) hk'
 
 theorem constructFrom_inv (junk : P → P) (m : Member) (st : St P) (j : Nat) (hinv : InvS st)
     (hm : ∀ s, st.objs j = some s → s.stored = true → okCtorMember m = true) :
@@ -177,8 +156,8 @@ theorem constructFrom_inv (junk : P → P) (m : Member) (st : St P) (j : Nat) (h
     · -- the invariant for everybody but the new object, in the state with the bumped counters
       refine ⟨?_, ?_, ?_, ?_⟩
       · intro i o _ hi hos
-        obtain ⟨h1, h2, h3, h4⟩ := hinv.own i o (by simp) hi hos
-        exact ⟨h1, h2, Nat.lt_succ_of_lt h3, h4⟩
+        obtain ⟨h1, h2, h3, h4, h5⟩ := hinv.own i o (by simp) hi hos
+        exact ⟨h1, h2, Nat.lt_succ_of_lt h3, h4, h5⟩
       · intro i k oi ok _ _; exact hinv.inj i k oi ok (by simp) (by simp)
       · intro a ha; exact Nat.lt_succ_of_lt (hinv.extlt a ha)
       · intro i o _ hi; exact Nat.lt_succ_of_lt (hinv.objlt i o (by simp) hi)
@@ -195,11 +174,6 @@ theorem constructFrom_inv (junk : P → P) (m : Member) (st : St P) (j : Nat) (h
       · intro k o _ hk hos hcell
         have := (hinv.own k o (by simp) hk hos).2.2.1
         omega
-    · intro hk hst
-      -- a constructor never leaves the interpreter alone
-      simp only [] at hst
-      have := hm s hs hst
-      simp [okCtorMember, hk] at this
 
 theorem assignWith_inv (junk : P → P) (m : Member) (st : St P) (i j : Nat) (hinv : InvS st)
     (hm : ∀ s, st.objs j = some s → s.stored = true → okAssignMember m = true) :
@@ -217,12 +191,10 @@ theorem assignWith_inv (junk : P → P) (m : Member) (st : St P) (i j : Nat) (hi
         · exact absurd (Or.inr h) hc
       apply runMember_inv junk m st i j t s (hm s hs) hij (InvX.weaken hinv _) hs (hinv.objlt i t (by simp) ht) hts
       · intro htst
-        obtain ⟨_, _, h3, h4⟩ := hinv.own i t (by simp) ht htst
+        obtain ⟨_, _, h3, h4, _⟩ := hinv.own i t (by simp) ht htst
         refine ⟨h3, h4, ?_⟩
         intro k o hki hk hos hcell
         exact hki (hinv.inj k i o t (by simp) (by simp) hk ht hos htst hcell)
-      · intro _ htst
-        exact (hinv.own i t (by simp) ht htst).1
   · exact hinv
 
 theorem wellSeated_parts (t : Smf) (h : WellSeated t = true) :
@@ -240,9 +212,9 @@ theorem step_inv (tbl : Bool → Smf) (hw : WellSeated (tbl true) = true) (junk 
     simp only [step]
     refine ⟨?_, ?_, ?_, ?_⟩ <;> (try dsimp only)
     · intro i o _ hi hos
-      obtain ⟨h1, h2, h3, h4⟩ := hinv.own i o (by simp) hi hos
+      obtain ⟨h1, h2, h3, h4, h5⟩ := hinv.own i o (by simp) hi hos
       have hne : o.cell ≠ st.next := by omega
-      exact ⟨h1, by rw [upd_other _ _ _ _ hne]; exact h2, Nat.lt_succ_of_lt h3, by rw [upd_other _ _ _ _ hne]; exact h4⟩
+      exact ⟨h1, by rw [upd_other _ _ _ _ hne]; exact h2, Nat.lt_succ_of_lt h3, by rw [upd_other _ _ _ _ hne]; exact h4, h5⟩
     · intro i j oi oj _ _; exact hinv.inj i j oi oj (by simp) (by simp)
     · intro a ha
       by_cases h : a = st.next
@@ -256,9 +228,9 @@ theorem step_inv (tbl : Bool → Smf) (hw : WellSeated (tbl true) = true) (junk 
       simp only [Bool.and_eq_true] at hc
       refine ⟨?_, fun i j oi oj _ _ => hinv.inj i j oi oj (by simp) (by simp), hinv.extlt, fun i o _ => hinv.objlt i o (by simp)⟩ <;> (try dsimp only)
       intro i o _ hi hos
-      obtain ⟨h1, h2, h3, h4⟩ := hinv.own i o (by simp) hi hos
+      obtain ⟨h1, h2, h3, h4, h5⟩ := hinv.own i o (by simp) hi hos
       have hne : o.cell ≠ a := by intro h; rw [h] at h4; rw [h4] at hc; exact absurd hc.1 (by simp)
-      exact ⟨h1, by rw [upd_other _ _ _ _ hne]; exact h2, h3, h4⟩
+      exact ⟨h1, by rw [upd_other _ _ _ _ hne]; exact h2, h3, h4, h5⟩
     · exact hinv
   | delInd a =>
     simp only [step]
@@ -266,9 +238,9 @@ theorem step_inv (tbl : Bool → Smf) (hw : WellSeated (tbl true) = true) (junk 
     · rename_i hc
       refine ⟨?_, fun i j oi oj _ _ => hinv.inj i j oi oj (by simp) (by simp), hinv.extlt, fun i o _ => hinv.objlt i o (by simp)⟩ <;> (try dsimp only)
       intro i o _ hi hos
-      obtain ⟨h1, h2, h3, h4⟩ := hinv.own i o (by simp) hi hos
+      obtain ⟨h1, h2, h3, h4, h5⟩ := hinv.own i o (by simp) hi hos
       have hne : o.cell ≠ a := by intro h; rw [h] at h4; rw [h4] at hc; exact absurd hc (by simp)
-      exact ⟨h1, by rw [upd_other _ _ _ _ hne]; exact h2, h3, h4⟩
+      exact ⟨h1, by rw [upd_other _ _ _ _ hne]; exact h2, h3, h4, h5⟩
     · exact hinv
   | construct stored a =>
     simp only [step]
@@ -290,10 +262,10 @@ theorem step_inv (tbl : Bool → Smf) (hw : WellSeated (tbl true) = true) (junk 
             simp only [] at hos
             subst hos
             simp only [hctor, if_true, upd_same]
-            exact ⟨trivial, trivial, Nat.lt_succ_self _, hfresh⟩
+            exact ⟨trivial, trivial, Nat.lt_succ_self _, hfresh, fun _ => trivial⟩
           · rw [upd_other _ _ _ _ hin] at hi
-            obtain ⟨h1, h2, h3, h4⟩ := hinv.own i o (by simp) hi hos
-            refine ⟨h1, ?_, Nat.lt_succ_of_lt h3, h4⟩
+            obtain ⟨h1, h2, h3, h4, h5⟩ := hinv.own i o (by simp) hi hos
+            refine ⟨h1, ?_, Nat.lt_succ_of_lt h3, h4, h5⟩
             cases stored with
             | false => simpa using h2
             | true =>
@@ -376,8 +348,8 @@ theorem step_inv (tbl : Bool → Smf) (hw : WellSeated (tbl true) = true) (junk 
         by_cases hki : k = i
         · subst hki; simp at hk
         · rw [upd_other _ _ _ _ hki] at hk
-          obtain ⟨h1, h2, h3, h4⟩ := hinv.own k ok (by simp) hk hoks
-          refine ⟨h1, ?_, h3, h4⟩
+          obtain ⟨h1, h2, h3, h4, h5⟩ := hinv.own k ok (by simp) hk hoks
+          refine ⟨h1, ?_, h3, h4, h5⟩
           by_cases hos : o.stored = true
           · have hne : ok.cell ≠ o.cell := fun h => hki (hinv.inj k i ok o (by simp) (by simp) hk ho hoks hos h)
             simp only [hos, if_true]; rw [upd_other _ _ _ _ hne]; exact h2
@@ -406,7 +378,8 @@ theorem run_inv (tbl : Bool → Smf) (hw : WellSeated (tbl true) = true) (junk :
 
 /-- a reference-only model reads the individual it stands for, which is one of the caller's -/
 def InvR (st : St P) (x : Option Nat) : Prop :=
-  ∀ i o, some i ≠ x → st.objs i = some o → o.stored = false → st.heap o.ptr = some o.prog ∧ st.ext o.ptr = true
+  ∀ i o, some i ≠ x → st.objs i = some o → o.stored = false →
+    st.heap o.ptr = some o.prog ∧ st.ext o.ptr = true ∧ o.built = some o.prog
 
 theorem wellRef_parts (t : Smf) (h : WellRef t = true) :
     t.ctor = ⟨.none, .seatParam⟩ ∧ t.copyCtor.ptr = .copyPtr ∧ t.moveCtor.ptr = .copyPtr ∧
@@ -441,27 +414,18 @@ theorem runMember_invR (junk : P → P) (m : Member) (st : St P) (i j : Nat) (t 
     constructor
     · intro h; rw [h, h1] at hb; exact absurd hb (by simp)
     · intro h; rw [h, h2] at hb; exact absurd hb (by simp)
-  by_cases hki : k = i
-  · subst hki
-    simp only [upd_same, Option.some.injEq] at hk
-    subst hk
-    have hsf : s.stored = false := by rw [← hts]; exact hos
-    obtain ⟨h1, h2⟩ := hR j s hji hs hsf
+  rcases upd2_cases _ _ _ _ _ _ _ hk with ⟨rfl, rfl⟩ | ⟨_, rfl, rfl⟩ | ⟨hki, hkj, hk'⟩
+  · have hsf : s.stored = false := by rw [← hts]; exact hos
+    obtain ⟨h1, h2, h3⟩ := hR j s hji hs hsf
     simp only [hm hsf, applyPtr]
-    exact ⟨by rw [hheap _ h2]; exact h1, h2⟩
-  · rw [upd_other _ _ _ _ hki] at hk
-    by_cases hkj : k = j
-    · subst hkj
-      simp only [upd_same, Option.some.injEq] at hk
-      subst hk
-      have hsf : s.stored = false := hos
-      obtain ⟨h1, h2⟩ := hR k s hji hs hsf
-      have hg : (applyInd junk m.ind st.heap t s).2 = s.prog := by simp [applyInd, hsf]
-      simp only [hm hsf, applyPtr, hg]
-      exact ⟨by rw [hheap _ h2]; exact h1, h2⟩
-    · rw [upd_other _ _ _ _ hkj] at hk
-      obtain ⟨h1, h2⟩ := hR k o (by intro h; injection h with h; exact hki h) hk hos
-      exact ⟨by rw [hheap _ h2]; exact h1, h2⟩
+    exact ⟨by rw [hheap _ h2]; exact h1, h2, h3⟩
+  · have hsf : s.stored = false := hos
+    obtain ⟨h1, h2, h3⟩ := hR k s hji hs hsf
+    have hg : (applyInd junk m.ind st.heap t s).2 = s.prog := by simp [applyInd, hsf]
+    simp only [hm hsf, applyPtr, hg]
+    exact ⟨by rw [hheap _ h2]; exact h1, h2, h3⟩
+  · obtain ⟨h1, h2, h3⟩ := hR k o (by intro h; injection h with h; exact hki h) hk' hos
+    exact ⟨by rw [hheap _ h2]; exact h1, h2, h3⟩
 
 theorem InvR.weaken {st : St P} (h : InvR st none) (x : Option Nat) : InvR st x :=
   fun i o _ => h i o (by simp)
@@ -484,17 +448,17 @@ theorem step_invR (tbl : Bool → Smf) (hr : WellRef (tbl false) = true) (junk :
   | newInd p =>
     intro i o _ hi hos
     simp only [step] at hi ⊢
-    obtain ⟨h1, h2⟩ := hR i o (by simp) hi hos
+    obtain ⟨h1, h2, h3⟩ := hR i o (by simp) hi hos
     have hne : o.ptr ≠ st.next := by intro h; rw [h, hfresh] at h2; exact absurd h2 (by simp)
-    exact ⟨by rw [upd_other _ _ _ _ hne]; exact h1, by rw [upd_other _ _ _ _ hne]; exact h2⟩
+    exact ⟨by rw [upd_other _ _ _ _ hne]; exact h1, by rw [upd_other _ _ _ _ hne]; exact h2, h3⟩
   | setInd a p =>
     intro i o _ hi hos
     simp only [step] at hi ⊢
     split at hi <;> split
     all_goals first
-      | (obtain ⟨h1, h2⟩ := hR i o (by simp) hi hos
+      | (obtain ⟨h1, h2, h3⟩ := hR i o (by simp) hi hos
          have hne : o.ptr ≠ a := hsafe i o hi hos
-         exact ⟨by dsimp only; rw [upd_other _ _ _ _ hne]; exact h1, h2⟩)
+         exact ⟨by dsimp only; rw [upd_other _ _ _ _ hne]; exact h1, h2, h3⟩)
       | exact hR i o (by simp) hi hos
       | (rename_i h1 h2; exact absurd h1 h2)
       | (rename_i h1 h2; exact absurd h2 h1)
@@ -503,9 +467,9 @@ theorem step_invR (tbl : Bool → Smf) (hr : WellRef (tbl false) = true) (junk :
     simp only [step] at hi ⊢
     split at hi <;> split
     all_goals first
-      | (obtain ⟨h1, h2⟩ := hR i o (by simp) hi hos
+      | (obtain ⟨h1, h2, h3⟩ := hR i o (by simp) hi hos
          have hne : o.ptr ≠ a := hsafe i o hi hos
-         exact ⟨by dsimp only; rw [upd_other _ _ _ _ hne]; exact h1, h2⟩)
+         exact ⟨by dsimp only; rw [upd_other _ _ _ _ hne]; exact h1, h2, h3⟩)
       | exact hR i o (by simp) hi hos
       | (rename_i h1 h2; exact absurd h1 h2)
       | (rename_i h1 h2; exact absurd h2 h1)
@@ -525,10 +489,10 @@ theorem step_invR (tbl : Bool → Smf) (hr : WellRef (tbl false) = true) (junk :
           dsimp only at hos ⊢
           subst hos
           simp only [hctor]
-          exact ⟨by simpa using hp, hext⟩
+          exact ⟨by simpa using hp, hext, trivial⟩
         · rw [upd_other _ _ _ _ hin] at hi
-          obtain ⟨h1, h2⟩ := hR i o (by simp) hi hos
-          refine ⟨?_, h2⟩
+          obtain ⟨h1, h2, h3⟩ := hR i o (by simp) hi hos
+          refine ⟨?_, h2, h3⟩
           cases stored with
           | false => simpa using h1
           | true => simp only [if_true]; rw [other _ _ o hfresh h2]; exact h1
@@ -545,7 +509,7 @@ theorem step_invR (tbl : Bool → Smf) (hr : WellRef (tbl false) = true) (junk :
       · rfl
       · intro hst
         simp only [hst, if_true]
-        exact ⟨hfresh, (hS.own j s (by simp) hs hst).2.2.2⟩
+        exact ⟨hfresh, (hS.own j s (by simp) hs hst).2.2.2.1⟩
       · intro hsf; rw [hsf]; exact hcc
   | moveConstruct j =>
     simp only [step]
@@ -559,7 +523,7 @@ theorem step_invR (tbl : Bool → Smf) (hr : WellRef (tbl false) = true) (junk :
       · rfl
       · intro hst
         simp only [hst, if_true]
-        exact ⟨hfresh, (hS.own j s (by simp) hs hst).2.2.2⟩
+        exact ⟨hfresh, (hS.own j s (by simp) hs hst).2.2.2.1⟩
       · intro hsf; rw [hsf]; exact hmc
   | copyAssign i j =>
     simp only [step]
@@ -580,7 +544,7 @@ theorem step_invR (tbl : Bool → Smf) (hr : WellRef (tbl false) = true) (junk :
             · exact absurd (Or.inr h) hc
           apply runMember_invR junk _ st i j t s (InvR.weaken hR _) hs hij hts
           · intro hst
-            exact ⟨(hS.own i t (by simp) ht (hts ▸ hst)).2.2.2, (hS.own j s (by simp) hs hst).2.2.2⟩
+            exact ⟨(hS.own i t (by simp) ht (hts ▸ hst)).2.2.2.1, (hS.own j s (by simp) hs hst).2.2.2.1⟩
           · intro hsf; rw [hsf]; exact hca
       · exact hR
   | moveAssign i j =>
@@ -602,7 +566,7 @@ theorem step_invR (tbl : Bool → Smf) (hr : WellRef (tbl false) = true) (junk :
             · exact absurd (Or.inr h) hc
           apply runMember_invR junk _ st i j t s (InvR.weaken hR _) hs hij hts
           · intro hst
-            exact ⟨(hS.own i t (by simp) ht (hts ▸ hst)).2.2.2, (hS.own j s (by simp) hs hst).2.2.2⟩
+            exact ⟨(hS.own i t (by simp) ht (hts ▸ hst)).2.2.2.1, (hS.own j s (by simp) hs hst).2.2.2.1⟩
           · intro hsf; rw [hsf]; exact hma
       · exact hR
   | destroy i =>
@@ -615,11 +579,11 @@ theorem step_invR (tbl : Bool → Smf) (hr : WellRef (tbl false) = true) (junk :
       by_cases hki : k = i
       · subst hki; simp at hk
       · rw [upd_other _ _ _ _ hki] at hk
-        obtain ⟨h1, h2⟩ := hR k ok (by simp) hk hoks
-        refine ⟨?_, h2⟩
+        obtain ⟨h1, h2, h3⟩ := hR k ok (by simp) hk hoks
+        refine ⟨?_, h2, h3⟩
         by_cases hos : o.stored = true
         · simp only [hos, if_true]
-          rw [other _ _ ok (hS.own i o (by simp) ho hos).2.2.2 h2]; exact h1
+          rw [other _ _ ok (hS.own i o (by simp) ho hos).2.2.2.1 h2]; exact h1
         · simp only [hos]; exact h1
 
 theorem run_invR (tbl : Bool → Smf) (hw : WellSeated (tbl true) = true) (hr : WellRef (tbl false) = true)
